@@ -19,6 +19,132 @@ func init() {
 	ops["LinRound"] = opConcRound
 	ops["AtomRound"] = opAtomRound
 	ops["TxRound"] = opTxRound
+	ops["TxReloadRound"] = opTxReloadRound
+	ops["LoadedRound"] = opLoadedRound
+}
+
+// opTxReloadRound: matchers call MatchTxAndUpdate on a transaction paying to the watched key (update-all) while
+// a reloader alternates between fresh messages A_i (tweak ta, containing the key) and fresh EMPTY messages B_i
+// (tweak tb).  Every message object is kept.  In any sequential order of the calls a B message never matches
+// anything, so it stays all-zero; an A message only gains the outpoint's bits under ta.
+func opTxReloadRound(_ *HState, a Event) Event {
+	nbytes, nhash := gInt(a, "nbytes"), gInt(a, "nhash")
+	ta, tb := gW32(a, "ta"), gW32(a, "tb")
+	item := poolItem(0)
+	desc := []interface{}{map[string]interface{}{
+		"outs": []interface{}{map[string]interface{}{"kind": "pk", "item": 0, "item2": 0}},
+		"ins":  []interface{}{map[string]interface{}{"parent": -1, "out": 0, "sig": -1, "ext": 1}}}}
+	tx := buildTxs(desc, gInt(a, "salt"))[0]
+	txid := tx.TxHash()
+	n := gInt(a, "n")
+	msgs := make([]*wire.MsgFilterLoad, n)
+	var init []int
+	for i := range msgs {
+		if i%2 == 0 {
+			msgs[i] = wire.NewMsgFilterLoad(make([]byte, nbytes), uint32(nhash), ta, wire.BloomUpdateAll)
+			pf := bloom.LoadFilter(msgs[i])
+			pf.Add(item)
+			if init == nil {
+				init = setBits(msgs[i].Filter)
+			}
+		} else {
+			msgs[i] = wire.NewMsgFilterLoad(make([]byte, nbytes), uint32(nhash), tb, wire.BloomUpdateAll)
+		}
+	}
+	f := bloom.LoadFilter(msgs[0])
+	var stop int32
+	var wg sync.WaitGroup
+	start := make(chan struct{})
+	var panics int32
+	for g := 0; g < gInt(a, "k"); g++ {
+		wg.Add(1)
+		go func() {
+			defer wg.Done()
+			<-start
+			p, _ := guard(func() {
+				for atomic.LoadInt32(&stop) == 0 {
+					f.MatchTxAndUpdate(bchutil.NewTx(tx))
+				}
+			})
+			if p {
+				atomic.AddInt32(&panics, 1)
+			}
+		}()
+	}
+	wg.Add(1)
+	go func() {
+		defer wg.Done()
+		<-start
+		for i := 1; i < n; i++ {
+			f.Reload(msgs[i])
+		}
+		atomic.StoreInt32(&stop, 1)
+	}()
+	close(start)
+	wg.Wait()
+	isInit := map[int]bool{}
+	for _, b := range init {
+		isInit[b] = true
+	}
+	extra, dirty := map[int]bool{}, map[int]bool{}
+	for i, m := range msgs {
+		for _, b := range setBits(m.Filter) {
+			if i%2 == 1 {
+				dirty[b] = true
+			} else if !isInit[b] {
+				extra[b] = true
+			}
+		}
+	}
+	keys := func(m map[int]bool) []int {
+		out := []int{}
+		for b := range m {
+			out = append(out, b)
+		}
+		sort.Ints(out)
+		return out
+	}
+	e := with(a, "item", ints(item), "txid", ints(txid[:]), "init", init, "aextra", keys(extra), "bdirty", keys(dirty))
+	if panics > 0 {
+		e["panic"] = "panic inside MatchTxAndUpdate"
+	}
+	return e
+}
+
+// opLoadedRound: in every round two goroutines Reload and two Unload, released together; once all four have
+// returned the filter is quiescent and IsLoaded() must agree with MsgFilterLoad() != nil (two sequential reads
+// of the same abstract state).
+func opLoadedRound(_ *HState, a Event) Event {
+	rounds := gInt(a, "rounds")
+	f := bloom.LoadFilter(wire.NewMsgFilterLoad(make([]byte, 8), 2, 1, wire.BloomUpdateNone))
+	mismatches, first := 0, -1
+	p, msg := guard(func() {
+		for r := 0; r < rounds; r++ {
+			var wg sync.WaitGroup
+			start := make(chan struct{})
+			for g := 0; g < 4; g++ {
+				wg.Add(1)
+				go func(g int) {
+					defer wg.Done()
+					<-start
+					if g%2 == 0 {
+						f.Reload(wire.NewMsgFilterLoad(make([]byte, 8), 2, uint32(r), wire.BloomUpdateNone))
+					} else {
+						f.Unload()
+					}
+				}(g)
+			}
+			close(start)
+			wg.Wait()
+			if f.IsLoaded() != (f.MsgFilterLoad() != nil) {
+				if mismatches == 0 {
+					first = r
+				}
+				mismatches++
+			}
+		}
+	})
+	return panicField(with(a, "mismatches", mismatches, "first", first), p, msg)
 }
 
 // opTxRound: k goroutines call MatchTxAndUpdate, each on its own transaction paying to the same
@@ -340,6 +466,12 @@ func runC20(c *Ctx) {
 		c.Call(Event{"op": "TxRound", "k": []int{2, 4, 8, 16}[round%4], "nbytes": 64, "nhash": 3, "tweak": w32(r.Uint32()), "flags": round % 3,
 			"salt": int(r.Int31n(50000))})
 	}
+	// MatchTxAndUpdate against reloads that alternate a matching and an empty message; loaded-flag agreement at quiescence
+	for round := 0; round < c.Pick(12, 120); round++ {
+		c.Call(Event{"op": "TxReloadRound", "k": []int{2, 4}[round%2], "n": 4000, "nbytes": 16, "nhash": 3, "ta": w32(r.Uint32()), "tb": w32(r.Uint32()),
+			"salt": int(r.Int31n(50000))})
+	}
+	c.Call(Event{"op": "LoadedRound", "rounds": c.Pick(60000, 600000)})
 	// atomicity of an insertion against concurrent reloads with another tweak
 	for round := 0; round < c.Pick(40, 400); round++ {
 		c.Call(Event{"op": "AtomRound", "nbytes": 8, "nhash": 3, "t0": w32(r.Uint32()), "t1": w32(r.Uint32()),
